@@ -462,6 +462,8 @@ def plan_for(prop, tier, seed, replay_file=None):
     if prop == 'C01':
         # complex selectors over annotations with relative offsets (range compression of annotation selectors)
         extra = [gen_job('complexrel_p13', 'complexrel', 13, depth=1, style=seed % 5, reads=['anntext'], per_state=False, MaxAnns=10, MaxRes=2, MaxData=4),
+                 # annotations with several values for one key (key.annotations() must list each annotation once)
+                 gen_job('multival_p19', 'remove', 19, depth=1, style=(seed + 3) % 5, MaxAnns=10, MaxRes=3, MaxData=10, MaxSets=2, MaxKeys=4),
                  # complex selectors over pairs of keys / data items / annotations
                  gen_job('complexmeta_p10', 'complexmeta', 10, depth=1, style=(seed + 2) % 5, per_state=False, MaxAnns=10, MaxRes=3, MaxData=8, MaxSets=2, MaxKeys=4)]
         if tier != 'quick':
